@@ -495,6 +495,56 @@ def gen_timed_prog(rng, max_actors=4, max_ops=6):
     return new_prog(cap=cap, actors=actors, perm=[0] * nb, timed=True)
 
 
+def gen_susp_prog(rng, max_actors=4, max_ops=6):
+    """Suspension (C11): actors sleep, join, wait on a semaphore (with and without timeout) or on a mutex, register on_exit
+    callbacks, and suspend / resume each other or themselves at arbitrary dates. No execution nor communication (suspending those
+    is not modelled); programs with a mutex have no kill (a killed actor stays in the mutex queue: out of C11's scope)."""
+    na = rng.randint(2, max_actors)
+    with_mutex = rng.random() < 0.4
+    ns = rng.randint(0, 1)
+    actors = []
+    for a in range(na):
+        ops = []
+        nid = 0
+        held = 0
+        others = [x for x in range(na) if x != a]
+        for _ in range(rng.randint(1, max_ops)):
+            k = rng.choice(["sleep", "sleep", "suspend", "suspend", "resume", "resume", "resume", "self", "join", "joint", "acq", "rel",
+                            "lock", "onexit", "kill", "yield"])
+            if k == "sleep":
+                ops.append(op("sleep", 0, 0, rng.randint(1, 5)))
+            elif k == "suspend":
+                ops.append(op("suspend", rng.choice(others) + 1))
+            elif k == "resume":
+                ops.append(op("resume", rng.choice(others) + 1))
+            elif k == "self" and rng.random() < 0.5:
+                ops.append(op("suspend", a + 1))
+            elif k in ("join", "joint"):
+                ops.append(op("join", rng.choice(others) + 1, 0, -1 if k == "join" else rng.randint(0, 4)))
+            elif k == "acq" and ns:
+                ops.append(op("acq" if rng.random() < 0.5 else "acqt", 1, 0, rng.randint(1, 4)))
+            elif k == "rel" and ns:
+                ops.append(op("rel", 1))
+            elif k == "lock" and with_mutex:
+                if held:
+                    ops.append(op("unlock", 1))
+                    held = 0
+                else:
+                    ops.append(op("lock", 1))
+                    held = 1
+            elif k == "onexit":
+                nid += 1
+                ops.append(op("onexit", 10 * (a + 1) + nid))
+            elif k == "kill" and not with_mutex and rng.random() < 0.5:
+                ops.append(op("kill", rng.choice(others) + 1))
+            elif k == "yield":
+                ops.append(op("yield"))
+        if held:
+            ops.append(op("unlock", 1))
+        actors.append(ops)
+    return new_prog(rec=[False] if with_mutex else [], cap=[rng.choice([0, 1])] * ns, actors=actors, timed=True)
+
+
 def gen_life_prog(rng, max_actors=5, max_ops=6):
     """Actor lifecycle: create, on_exit callbacks, join with/without timeout, kill, kill_all, daemons, kill times, mixed with
     sleeps, executions and semaphore waits (no mutex / barrier: their queues keep killed actors, out of C11's scope)."""
